@@ -259,8 +259,8 @@ class TrioConn:
     def accept_bytes(self, n: int) -> None:
         self.stream.client_accept_bytes(n)
 
-    def fail_writes(self, after_n: int = 0) -> None:
-        self.peer_lost = True
+    def fail_writes(self, after_n: int = 0, how: str = "pipe") -> None:
+        self.peer_lost = True  # (trio reports every failed send as BrokenResourceError)
         self.stream.fail_after = after_n
 
     @property
